@@ -19,6 +19,10 @@ PROPS = {
     "C05-h2-close-stream-completes-buffer": ["C05"], "C06-recycle-before-close-stream": ["C06", "C03"], "C09-priority-placeholder-left-active": ["C09", "C04"],
     "C11-ws-close-state-after-send": ["C11"], "C12-streambuffer-push-guard-uses-property": ["C12", "C08", "C02"], "C13-h2-prior-knowledge-replays-read-only": ["C13"],
     "C18-rst-decrements-request-count": ["C18"], "C19-config-prefix-lstrip": ["C19"], "C20-redirect-host-cached-on-instance": ["C20"],
+    "C02-h11-close-strips-app-connection-header": ["C02"], "C03-h2-closed-guard-skips-late-streams": ["C03"], "C04-h11-upgrade-scan-ascii-decode": ["C04"],
+    "C06-asyncio-close-skipped-when-eof-fails": ["C06", "C07", "C16"], "C07-h2-busy-only-for-first-stream": ["C07"], "C08-asyncio-write-without-drain-when-locked": ["C08", "C16"],
+    "C10-pings-coalesced-to-last": ["C10"], "C13-ws-passthrough-drops-trailing-data": ["C13"], "C14-trio-state-not-copied-per-connection": ["C14", "C16"],
+    "C15-no-idle-timer-after-shutdown": ["C15", "C07"], "C16-asyncio-read-loop-at-eof": ["C16"], "C20-dispatcher-tables-aliased": ["C20"],
 }
 claimed = {c["property_id"] for c in json.load(open(os.path.join(HERE, "MANIFEST.json")))["checks"]}
 sel = sys.argv[1:]
